@@ -194,7 +194,8 @@ def run(ctx, model=None):
                 games.append((rng.choice(["se\u00f1al", "game_\u03b1"]) + f"_{i}", g))
                 continue
             games.append((rng.choice(["game", "g_1", "robot7", "x_y_z"]) + f"_{i}", g))
-        stem = rng.choice(["batch", "robot_12_w3_l2", "my_games_2024", "a_b_c_1"]) + f"_{it}"
+        stem = rng.choice(["batch", "robot_12_w3_l2", "my_games_2024", "a_b_c_1"]) + f"_{it}" + \
+            rng.choice(["", "", "_copy", "_py", "_happy", "p", "y"])
         check_file(ctx, stem, render_game_file(games), model,
                    subdir=rng.choice(["inputs", "./inputs", "data_1", "inputs.v2", "my.inputs/set_1"]))
         if ctx.time_left() < 0:
